@@ -89,7 +89,7 @@ func petBody(r *simfw.RNG, m string, valid bool) string {
 func genOp(r *simfw.RNG, m string) Op {
 	rt := simfw.Pick(r, []string{"gorilla", "gorilla", "legacy"})
 	ver := simfw.Pick(r, []string{"/v1", "/v1", "/v2"})
-	switch r.Intn(18) {
+	switch r.Intn(20) {
 	case 0, 1:
 		return Op{Kind: "find", Router: rt, Method: simfw.Pick(r, []string{"GET", "PUT", "POST", "DELETE"}),
 			Path: simfw.Pick(r, []string{ver + "/pets/7", ver + "/pets/abc", ver + "/pets/mine", ver + "/form", "/v3/pets/1", "/nope/" + m, ver + "/text", ver + "/upload"})}
@@ -106,7 +106,7 @@ func genOp(r *simfw.RNG, m string) Op {
 			o.Headers = append(o.Headers, [2]string{"X-Trace", simfw.Pick(r, []string{"2021-03-04", "2021-13-40"})})
 		}
 		if r.Chance(1, 3) {
-			o.Headers = append(o.Headers, [2]string{"X-Tenant", simfw.Pick(r, []string{"acme", "much-too-long-tenant"})})
+			o.Headers = append(o.Headers, [2]string{"X-Tenant", simfw.Pick(r, []string{"acme", "much-too-long-tenant", "root"})})
 		}
 		if r.Chance(1, 3) {
 			q.Set("fields", simfw.Pick(r, []string{"name,born", "NAME"}))
@@ -200,7 +200,20 @@ func genOp(r *simfw.RNG, m string) Op {
 			o.RespHeaders = [][2]string{{"Content-Type", "application/json"}}
 		}
 		return o
+	case 17:
+		// media ranges, a type with parameters, a vendor type nobody registered a decoder for
+		switch r.Intn(3) {
+		case 0:
+			return Op{Kind: "vreq", Router: rt, Method: "POST", Path: ver + "/loose", CT: simfw.Pick(r, []string{"application/json; charset=utf-8; run=" + m, "application/json; charset=utf-8; run=" + m, "application/json"}), Body: simfw.Pick(r, []string{`{"x":1}`, `{"name":"n"}`, `[1]`})}
+		case 1:
+			return Op{Kind: "vreq", Router: rt, Method: "POST", Path: ver + "/strict", CT: simfw.Pick(r, []string{"application/json; charset=utf-8; run=" + m, "application/json; charset=utf-8; run=" + m, "application/json"}), Body: simfw.Pick(r, []string{`{"x":1}`, `{"name":"n"}`, `{"name":""}`})}
+		default:
+			return Op{Kind: "vreq", Router: rt, Method: "POST", Path: ver + "/vendor", CT: "application/vnd." + m + "+json", Body: simfw.Pick(r, []string{`{"v":1}`, `{"v":"x"}`, `{}`})}
+		}
 	case 13:
+		if r.Chance(1, 4) {
+			return Op{Kind: "visit", Schema: "Odd", Value: simfw.Pick(r, []string{`{"n":"fine","m":5}`, `{"n":"forbidden"}`, `{"m":500}`, `{"n":7,"m":"x"}`}), Mode: simfw.Pick(r, []string{"default", "default", "failfast", "multi"})}
+		}
 		schema := simfw.Pick(r, []string{"Pet", "Pet", "Dog", "Cat", "Err"})
 		val := simfw.Pick(r, []string{petBody(r, m, true), petBody(r, m, false), `{"species":"dog","tricks":["a` + m + `d","b"]}`, `{"species":"cat","lives":"many"}`, `{"error":"x"}`, `[1,2]`, `null`,
 			`{"id":"NaN!","name":"Rex"}`, `{"species":"dog","tricks":["sit","Inf!"]}`, `{"species":"cat","lives":"NaN!"}`}) // (NaN!/Inf!: replaced by the float after decoding; JSON cannot say them, a Go caller can)
